@@ -177,6 +177,33 @@ Fixpoint evalSeq (e : nat) (l : list (opts * nat)) (c : cache) : list (list t) :
   | (o, k) :: r => let (v, c') := evalPoint e o k c in v :: evalSeq e r c'
   end.
 
+(* ---- configuration: HomogenizationParameters.__init__ / setHomogenizationFunction /
+   setLabyrinthFactor / setPostProcessFunction and the HomogenizationModel methods that forward to them
+   (setMobilityFunction, setLabyrinthFactor, setMobilityPostProcessFunction) ------------------------- *)
+Record config := mkCfg { c_rule : rule; c_factor : t; c_post : post }.
+
+(* np.clip(n, 1, 2) *)
+Definition clampLab (n : t) : t :=
+  if ltb O n (one O) then one O else if ltb O two n then two else n.
+
+(* one call of a setter, on the parameter object or through the model (the model methods forward) *)
+Inductive cop := OpRule (r : rule) | OpLab (n : t) | OpPost (p : post).
+
+Definition applyOp (c : config) (op : cop) : config :=
+  match op with
+  | OpRule r => mkCfg r (c_factor c) (c_post c)
+  | OpLab n => mkCfg (c_rule c) (clampLab n) (c_post c)
+  | OpPost p => mkCfg (c_rule c) (c_factor c) p
+  end.
+
+(* the constructor stores its three arguments (labyrinthFactor as given: "Must be between 1 and 2") *)
+Definition configure (c0 : config) (ops : list cop) : config := fold_left applyOp ops c0.
+
+(* what computeHomogenizationFunction then evaluates at a point with data d; the power of the
+   labyrinth rule is the oracle [pwr] at the configured factor *)
+Definition homogenizeCfg (e : nat) (pwr : t -> t -> t) (c : config) (d : mobData) : list t :=
+  homogenize e (mkOpts (c_rule c) (c_post c) (pwr (c_factor c))) d.
+
 End C17.
 
 Arguments mkData {O} _ _ _.
@@ -187,3 +214,10 @@ Arguments mkOpts {O} _ _ _.
 Arguments o_rule {O} _.
 Arguments o_post {O} _.
 Arguments o_pw {O} _.
+Arguments mkCfg {O} _ _ _.
+Arguments c_rule {O} _.
+Arguments c_factor {O} _.
+Arguments c_post {O} _.
+Arguments OpRule {O} _.
+Arguments OpLab {O} _.
+Arguments OpPost {O} _.
